@@ -33,7 +33,7 @@ type propCfg struct {
 	Extra       []string // further engines that serve the same property (their runs are added)
 	Engine      string
 	GoBin       string // "" = default go; "go1.26.8" for the synctest engine
-	TestPkg     string // non-empty: engine is a `go test -c` binary of this /repo package (in-package drivers)
+	TestPkg     string // non-empty: engine is a `go test -c` binary of this package (of /repo, or of /verif when it starts with ./engines/)
 	Level       string
 	QuickRuns   int
 	ThorRuns    int
@@ -210,7 +210,11 @@ func prepare(pc0 *propCfg, engineName string) string {
 		var err error
 		start := time.Now()
 		if pc.TestPkg != "" {
-			out, err = run(repoDir, env, gobin, "test", "-c", "-tags", "verif", "-vet=off", "-overlay", filepath.Join(gen, "overlay.json"), "-o", bin+".tmp", pc.TestPkg)
+			wd := repoDir
+			if strings.HasPrefix(pc.TestPkg, "./engines/") {
+				wd = verifDir // a harness test package (testing/synctest needs a *testing.T)
+			}
+			out, err = run(wd, env, gobin, "test", "-c", "-tags", "verif", "-vet=off", "-overlay", filepath.Join(gen, "overlay.json"), "-o", bin+".tmp", pc.TestPkg)
 		} else {
 			out, err = run(verifDir, env, gobin, "build", "-tags", "verif", "-overlay", filepath.Join(gen, "overlay.json"), "-o", bin+".tmp", "./engines/"+pc.Engine)
 		}
